@@ -144,7 +144,9 @@ class Acc:
         for k, v in o.caps.items():
             self.caps[k] = self.caps.get(k, 0) + v
         for k, v in o.extra.items():
-            if isinstance(v, (int, float)):
+            if isinstance(v, (int, float)) and (k.startswith('max_') or '_max_' in k):
+                self.extra[k] = max(self.extra.get(k, 0), v)
+            elif isinstance(v, (int, float)):
                 self.extra[k] = self.extra.get(k, 0) + v
             else:
                 self.extra[k] = v
